@@ -5,7 +5,7 @@ import sys
 import json
 import random
 import numpy as np
-from mininec.mininec import Mininec, Wire, Excitation, Medium, Angle, ideal_ground
+from mininec.mininec import Mininec, Wire, Excitation, Medium, Angle, ideal_ground, Impedance_Load, Series_RLC_Load
 
 
 def wires(spec):
@@ -25,6 +25,9 @@ def media(mspec):
 def solve(spec, mspec):
     m = Mininec(spec['f'], wires(spec), media=media(mspec))
     m.register_source(Excitation(1 + 0j), spec['feed'])
+    for kind, pulse in spec.get('loads', []):
+        ld = Impedance_Load(25 + 40j) if kind == 'z' else Series_RLC_Load(10.0, 12e-6, None)
+        m.register_load(ld, pulse)
     m.compute()
     return m
 
@@ -113,7 +116,12 @@ def gen(rng):
         if boundary == 'circular' and rng.random() < 0.5:
             ms[0]['nradials'] = rng.randint(4, 60)
             ms[0]['radius'] = 0.001
-    return {'wires': ws, 'f': rng.choice([3.7, 7.1, 14.2]), 'feed': 0, 'media': ms, 'boundary': boundary,
+    loads = []
+    if rng.random() < 0.6:
+        loads.append((rng.choice(['z', 'rlc']), 0))                 # on the grounded (base) pulse
+    if rng.random() < 0.3:
+        loads.append(('z', rng.randint(1, ws[0][0] - 1)))
+    return {'wires': ws, 'f': rng.choice([3.7, 7.1, 14.2]), 'feed': 0, 'media': ms, 'boundary': boundary, 'loads': loads,
             'split_at': rng.uniform(3, 30), 'azi0': rng.choice([0, 30, 90, 200, 270])}
 
 
